@@ -8,6 +8,13 @@ nesting rule.  A program is a well-nested tree of
     ('R', 'E'|'B')                          raise E_() / BE_()   (Exception / BaseException)
     ('T', [children])                       try: ... except BaseException: pass
     ('C',)                                  w = pg.with_contextual_override(getter)
+    ('A', action)                           an operation of the public API performed *inside* the
+                                            block on the scope object / yielded value / scoped
+                                            state (t.end(), thread_local_set(...), y.clear(), ...)
+
+A manager argument may also be marked `exit_raises`: the user callback it was
+given (exit_fn) raises E_ when the block is left normally, i.e. the `with`
+statement itself raises after its body completed.
 
 The executor probes every getter (and the behavioural probes of the involved
 state keys) at every slot of every block, after every exceptional exit of every
@@ -56,7 +63,9 @@ class Probe:
 
 
 class Arg:
-  def __init__(self, src, marg, enter_raises=None, allowed=None, exit_probe=None):
+  def __init__(self, src, marg, enter_raises=None, allowed=None, exit_probe=None,
+               exit_raises=False):
+    self.exit_raises = exit_raises  # the user callback run at normal exit raises E_
     self.src = src                # source of the context manager expression
     self.marg = marg              # model-side argument
     self.enter_raises = enter_raises
@@ -78,8 +87,33 @@ class Mgr:
     self.conflicts = conflicts    # manager names that must not enclose / be enclosed
 
 
+class Act:
+  """An operation performed inside the block of an open scope.
+
+  `src` is a statement; '{y}' stands for the value yielded by the target scope:
+  the (1+up)-th innermost open scope of one of the managers `mgrs`.  `effect`
+  (model, depth) updates the model of every block from the target's block down
+  to the current one (depth = index of the target among the open scopes of
+  `mgrs`).  A `dirty` action leaves the scoped state *inside* the block
+  unspecified (the block mutated the value it was handed); the only demand is
+  the one of the property statement: leaving the block restores the state
+  observed before entering."""
+
+  def __init__(self, name, mgrs, src, tag, effect=None, up=0, dirty=False):
+    self.name, self.mgrs, self.src, self.tag = name, tuple(mgrs), src, tag
+    self.effect, self.up, self.dirty = effect, up, dirty
+    self.code = compile(src.format(y='Y_'), f'<action {name}>', 'exec')
+
+
 KEYS = {}
 MGRS = {}
+ACTS = {}
+
+
+def _act(*a, **k):
+  x = Act(*a, **k)
+  ACTS[x.name] = x
+  return x
 
 
 def _key(*a, **k):
@@ -374,6 +408,19 @@ _mgr('thread_local_value_scope', 'valscope', [
 ], _innermost)
 
 
+def _set_effect(key, value):
+  def eff(model, depth):
+    del depth
+    model[key] = value
+  return eff
+
+
+_act('value_scope.set', ['thread_local_value_scope'], "pg.utils.thread_local_set('k17_', 'S')",
+     'set-in-block', _set_effect('valscope', ('set', 'S')))
+_act('value_scope.set-none', ['thread_local_value_scope'], "pg.utils.thread_local_set('k17_', None)",
+     'set-in-block', _set_effect('valscope', ('set', None)))
+
+
 # ---------------------------------------------------------------------------
 # view options (deep merge, inner over outer) and view-method tracking.
 # ---------------------------------------------------------------------------
@@ -548,6 +595,7 @@ def f2_(hv): return ('f2', type(hv).__name__)
 EX_ = {}
 def ex_(): EX_[threading.get_ident()] = EX_.get(threading.get_ident(), 0) + 1
 def exn_(): return EX_.get(threading.get_ident(), 0)
+def exr_(): ex_(); raise E_()
 def dy_():
   a = pg.oneof([1, 2]); b = pg.floatv(0.0, 1.0)
   return (a if isinstance(a, (tuple, int)) else type(a).__name__, b if isinstance(b, (tuple, float)) else type(b).__name__)
@@ -566,6 +614,12 @@ _mgr('dynamic_evaluate', 'dyneval', [
     Arg('pg.hyper.dynamic_evaluate(None, exit_fn=ex_)', None, exit_probe=('exn_()', 1, 0)),
     Arg('pg.hyper.DynamicEvaluationContext().collect()', 'collect'),
     Arg('pg.hyper.dynamic_evaluate(1)', None, enter_raises='ValueError'),
+    Arg('pg.hyper.dynamic_evaluate(f1_, exit_fn=1)', None, enter_raises='ValueError'),
+    # exit_fn raises (e.g. a finalizer complaining about unused decisions).
+    Arg('pg.hyper.dynamic_evaluate(f1_, exit_fn=exr_)', 'f1',
+        exit_probe=('exn_()', 1, 0), exit_raises=True),
+    Arg('pg.hyper.dynamic_evaluate(None, yield_value=3, exit_fn=exr_)', None,
+        exit_probe=('exn_()', 1, 0), exit_raises=True),
 ], _innermost, conflicts=('dynamic_evaluate_global',))
 _mgr('dynamic_evaluate_global', 'dyneval', [
     Arg('pg.hyper.dynamic_evaluate(f1_, per_thread=False)', 'f1'),
@@ -573,6 +627,8 @@ _mgr('dynamic_evaluate_global', 'dyneval', [
         exit_probe=('exn_()', 1, 0)),
     Arg('pg.hyper.dynamic_evaluate(None, per_thread=False)', None),
     Arg('pg.hyper.DynamicEvaluationContext(per_thread=False).collect()', 'collect'),
+    Arg('pg.hyper.dynamic_evaluate(f2_, exit_fn=exr_, per_thread=False)', 'f2',
+        exit_probe=('exn_()', 1, 0), exit_raises=True),
 ], _innermost, process_wide=True, conflicts=('dynamic_evaluate',))
 
 
@@ -625,11 +681,25 @@ _key('timeit', '''def tn_():
   return None if t is None else (t.name, t.has_started, t.has_ended)
 ''', (), [
     Probe('timeit.current-scope', 'tn_()',
-          lambda m: (m['timeit'][-1], True, False) if m['timeit'] else None),
+          lambda m: ((m['timeit'][-1], True, (len(m['timeit']) - 1) in m.get('_tended', ()))
+                     if m['timeit'] else None)),
 ])
 _mgr('timeit', 'timeit', [
     Arg("pg.timeit('a')", 'a'), Arg("pg.utils.TimeIt('b')", 'b'), Arg('pg.timeit()', ''),
 ], lambda s, a: s + (a,))
+
+
+# The model entry '_tended' (one set shared by all block models of a program)
+# holds the depths of the open timing scopes whose clock was stopped early.
+def _tended(model, depth):
+  model.setdefault('_tended', set()).add(depth)
+
+
+_act('timeit.end', ['timeit'], '{y}.end()', 'ended-in-block', _tended)
+_act('timeit.end-with-error', ['timeit'], '{y}.end(E_())', 'ended-in-block', _tended)
+_act('timeit.end-twice', ['timeit'], '{y}.end(); {y}.end(E_())', 'ended-in-block', _tended)
+_act('timeit.restart', ['timeit'], '{y}.start()', 'restarted-in-block')
+_act('timeit.end-enclosing', ['timeit'], '{y}.end()', 'enclosing-ended-in-block', _tended, up=1)
 
 
 # ---------------------------------------------------------------------------
@@ -677,6 +747,28 @@ _mgr('preset_args', 'preset', [
     Arg("pg.typing.preset_args(dict(a=7), preset_name='other')", (dict(a=7), 'other', False)),
     Arg('pg.typing.preset_args(dict(b=8))', (dict(b=8), 'global', False)),
 ], _preset_enter)
+
+# The block mutates the container it was handed by `with ... as y` (add/replace
+# an entry the probes look at; remove everything).  Inside the block the state
+# is then unspecified; after the block it must be the state before entering.
+_YIELD_MUTATIONS = {
+    'str_format': "{y}['zz_'] = 1",
+    'repr_format': "{y}['zz_'] = 1",
+    'thread_local_arg_scope': "{y}['zz_'] = 1",
+    'view_options': "{y}['zz_'] = 1",
+    'coding.context': "{y}['x'] = 'zz_'",
+    'contextual_override': "{y}['x'] = CX_(99)",
+    'contextual_scope': "{y}['x'] = CX_(99)",
+    'detour': '{y}[DC_] = DA_',
+    'load_types_for_deserialization': "{y}['LT1_'] = LT2_",
+}
+for _n, _src in _YIELD_MUTATIONS.items():
+  _act(f'{_n}.yielded-value-modified', [_n], _src, 'yield-modified', dirty=True)
+  _act(f'{_n}.yielded-value-cleared', [_n], '{y}.clear()', 'yield-cleared', dirty=True)
+_act('track_scripts.yielded-list-appended', ['track_scripts'], "{y}.append('zz_')",
+     'yield-appended')
+# keys whose probes read the model of another key
+_DIRTY_ALSO = {'ctx': ('objoverride',), 'objoverride': ('ctx',)}
 
 for _m in MGRS.values():
   if not hasattr(_m, 'yconv'):
@@ -772,14 +864,15 @@ class Ctx:
     self.exit_calls = (0, 0)
     self.exit_base = ns['exn_']()
     self.open = {}
+    self.wstack = []                  # open scopes: dict(mgr, key, path, y, model, tags)
 
   def phase(self, key):
     ev = self.event.get(key)
     if ev is None:
       return 'untouched'
     what, n = ev
-    if what == 'enter':
-      return 'after-enter/' + ('outermost' if n <= 1 else 'nested')
+    if what.startswith('enter'):
+      return f'after-{what}/' + ('outermost' if n <= 1 else 'nested')
     return f'after-{what}/' + ('outermost' if n == 0 else 'nested')
 
   def fail(self, case_id, loc, message, assert_src, keys):
@@ -788,6 +881,10 @@ class Ctx:
   def probe(self, path, slot, model, skip_keys=(), leaf=False):
     ns = self.ns
     everything = self.all_behavioural is True or (self.all_behavioural == 'leaf' and leaf)
+    dirty = model.get('_dirty', ())
+    if dirty:
+      skip_keys = tuple(skip_keys) + tuple(dirty) + tuple(
+          d for k in dirty for d in _DIRTY_ALSO.get(k, ()))
     for k in KEY_ORDER:
       if k in skip_keys:
         continue
@@ -814,7 +911,7 @@ class Ctx:
         if not same(got, want):
           self.fail(f'{p.name}/{self.phase(k)}', (path, slot),
                     f'got {got!r}, want {want!r}', _assert_src(src, want), (k,))
-    if 'ctx' in self.involved:
+    if 'ctx' in self.involved and 'ctx' not in skip_keys:
       for idx, w, captured in self.captures:
         want = _ctx_enter(model['ctx'], captured)
         self.checks += 1
@@ -880,11 +977,46 @@ def _yvar(path):
   return 'y_' + '_'.join(map(str, path))
 
 
+def _target(stack, act):
+  """Index (into `stack`, a list of manager names or scope entries) of the scope an action works on."""
+  idxs = [i for i, e in enumerate(stack)
+          if (e['mgr'] if isinstance(e, dict) else e[0]) in act.mgrs]
+  if len(idxs) <= act.up:
+    return None, None
+  return idxs[-1 - act.up], len(idxs) - 1 - act.up
+
+
+def _exec_action(node, path, model, ctx):
+  ns = ctx.ns
+  act = ACTS[node[1]]
+  ti, depth = _target(ctx.wstack, act)
+  ent = ctx.wstack[ti]
+  try:
+    exec(act.code, ns, {'Y_': ent['y']})  # pylint: disable=exec-used
+  except Exception as e:  # pylint: disable=broad-except
+    if _is_ours(e, ns):
+      raise
+    ctx.fail(f'{act.name}/unexpected-error', (path, 'a'), f'{type(e).__name__}: {e}',
+             'pass', (ent['key'],))
+  ent['tags'].append(act.tag)
+  for e in ctx.wstack[ti:]:
+    if act.effect:
+      act.effect(e['model'], depth)
+  if act.dirty:
+    assert ti == len(ctx.wstack) - 1 and ent['model'] is model, 'dirty action outside its block'
+    model['_dirty'] = frozenset(model.get('_dirty', ())) | {ent['key']}
+  n = ctx.open.get(ent['key'], 0)
+  ctx.event[ent['key']] = ('enter+' + act.tag, n)
+
+
 def _exec_node(node, path, model, ctx, cidx):
   ns = ctx.ns
   kind = node[0]
   if kind == 'R':
     raise ns['E_' if node[1] == 'E' else 'BE_']()
+  if kind == 'A':
+    _exec_action(node, path, model, ctx)
+    return
   if kind == 'T':
     try:
       _exec_block(node[1], path, model, ctx, cidx)
@@ -899,9 +1031,22 @@ def _exec_node(node, path, model, ctx, cidx):
   mgr = MGRS[node[1]]
   arg = mgr.args[node[2]]
   k = mgr.key
-  xp0 = None
   entered = False
+  body_done = False
+  body_exc = None
   y = None
+  ent = None
+  depth0 = len(ctx.wstack)
+
+  def left(what):
+    """Bookkeeping common to every way of leaving the scope."""
+    del ctx.wstack[depth0:]
+    ctx.open[k] -= 1
+    tags = sorted(set(ent['tags']))
+    ctx.event[k] = (what + ''.join('+' + t for t in tags), ctx.open[k])
+    if mgr.name == 'timeit':
+      model.get('_tended', set()).discard(len(model['timeit']))
+
   try:
     cm = eval(arg.code, ns)  # pylint: disable=eval-used
     with cm as y:
@@ -911,9 +1056,12 @@ def _exec_node(node, path, model, ctx, cidx):
                  f'{arg.src} entered; expected {arg.enter_raises}',
                  'raise AssertionError("entered")', (k,))
       inner = dict(model)
+      inner.pop('_dirty', None)
       inner[k] = mgr.enter(model[k], arg.marg)
       n = ctx.open[k] = ctx.open.get(k, 0) + 1
       ctx.event[k] = ('enter', n)
+      ent = dict(mgr=mgr.name, key=k, path=path, y=y, model=inner, tags=[])
+      ctx.wstack.append(ent)
       if mgr.yields is not None:
         want = mgr.yields(model[k], arg.marg, inner[k])
         if want is not SKIP:
@@ -930,32 +1078,41 @@ def _exec_node(node, path, model, ctx, cidx):
         if ctx.tstack:
           ctx.tstack[-1].append(arg.marg)
         ctx.tstack.append([])
-      _exec_block(node[3], path, inner, ctx, cidx)
+      try:
+        _exec_block(node[3], path, inner, ctx, cidx)
+      except BaseException as be:  # pylint: disable=broad-except
+        body_exc = be
+        raise
+      body_done = True
   except BaseException as e:  # pylint: disable=broad-except
     if not entered:
       if arg.enter_raises and type(e).__name__ == arg.enter_raises:
         return
       raise
-    ctx.open[k] -= 1
-    ctx.event[k] = ('exception-exit', ctx.open[k])
-    _after_exit(mgr, arg, path, ctx, y, xp0, True, isinstance(e, Exception))
+    if body_done and not (arg.exit_raises and isinstance(e, ns['E_'])):
+      raise           # the manager itself failed while leaving: reported as program/unexpected-*
+    left('exit-error' if body_done else 'exception-exit')
+    _after_exit(mgr, arg, path, ctx, y, ent, True, isinstance(body_exc, Exception), body_done)
     ctx.probe(path, 'x', model)
     raise
-  ctx.open[k] -= 1
-  ctx.event[k] = ('exit', ctx.open[k])
-  _after_exit(mgr, arg, path, ctx, y, xp0, False, False)
+  left('exit')
+  if arg.exit_raises:
+    ctx.fail(f'{mgr.name}.exit_fn-error/not-propagated', (path, 'e'),
+             f'{arg.src}: the exception raised by exit_fn did not leave the with statement',
+             'raise AssertionError("exit_fn error swallowed")', (k,))
+  _after_exit(mgr, arg, path, ctx, y, ent, False, False, True)
 
 
-def _after_exit(mgr, arg, path, ctx, y, xp0, exceptional, is_exception):
+def _after_exit(mgr, arg, path, ctx, y, ent, exceptional, is_exception, body_done):
   ns = ctx.ns
   k = mgr.key
   if arg.exit_probe:
-    # exit_fn: exactly once on normal exit, never when an Exception leaves the
-    # block (the documented use is a completion check), unspecified (0 or 1) for
-    # a BaseException.  Counted over the whole program so far.
+    # exit_fn: exactly once when the body completed (normal exit), never when an
+    # Exception leaves the block (the documented use is a completion check),
+    # unspecified (0 or 1) for a BaseException.  Counted over the whole program so far.
     src, d_normal, d_exc = arg.exit_probe
     lo, hi = ctx.exit_calls
-    if not exceptional:
+    if body_done:
       lo, hi = lo + d_normal, hi + d_normal
     elif is_exception:
       lo, hi = lo + d_exc, hi + d_exc
@@ -965,19 +1122,21 @@ def _after_exit(mgr, arg, path, ctx, y, xp0, exceptional, is_exception):
     got = eval(src, ns) - ctx.exit_base  # pylint: disable=eval-used
     ctx.checks += 1
     if not lo <= got <= hi:
-      ctx.fail(f'{mgr.name}.exit_fn-calls/' + ('exception-exit' if exceptional else 'normal-exit'),
+      ctx.fail(f'{mgr.name}.exit_fn-calls/' + ('exception-exit' if not body_done else 'normal-exit'),
                (path, 'e'), f'exit_fn called {got} times so far, want {lo}..{hi}',
                f'assert {lo} <= ({src}) - e0_ <= {hi}', (k,))
   if mgr.name == 'timeit':
     kids = ctx.tstack.pop()
     yv = _yvar(path)
+    ended_early = any(t in ('ended-in-block', 'enclosing-ended-in-block') for t in ent['tags'])
     checks = [
         ('timeit.children', [c.name for c in y.children], kids,
          f'[c.name for c in {yv}.children]'),
         ('timeit.has_ended', y.has_ended, True, f'{yv}.has_ended'),
-        ('timeit.has_error', y.has_error, exceptional, f'{yv}.has_error'),
     ]
-    if y.name:    # ('' would share its status key with same-named children)
+    if not ended_early:   # which error an early-stopped clock reports is not specified
+      checks.append(('timeit.has_error', y.has_error, exceptional, f'{yv}.has_error'))
+    if y.name and not ended_early:    # ('' would share its status key with same-named children)
       checks.append((
           'timeit.status-root-entry',
           (y.status()[y.name].has_ended, y.status()[y.name].has_error), (True, exceptional),
@@ -1007,6 +1166,7 @@ def run_program(prog, all_behavioural=False):
   ctx = Ctx(ns, involved_keys(prog), all_behavioural)
   cidx = _capture_index(prog)
   model = dict(INIT_MODEL)
+  model['_tended'] = set()
   try:
     _exec_node(('T', prog), (), model, ctx, cidx)
   except BaseException as e:  # pylint: disable=broad-except
@@ -1047,21 +1207,25 @@ def emit(prog, failure):
     if loc == (path, s):
       lines.append(ind + failure.assert_src)
 
-  def block(children, path, ind):
+  def block(children, path, ind, stack):
     lines.append(ind + 'pass')
     slot(path, 0, ind)
     for i, n in enumerate(children):
-      node(n, path + (i,), ind)
+      node(n, path + (i,), ind, stack)
       slot(path, i + 1, ind)
 
-  def node(n, path, ind):
+  def node(n, path, ind, stack):
     if n[0] == 'R':
       lines.append(ind + ('raise E_()' if n[1] == 'E' else 'raise BE_()'))
+    elif n[0] == 'A':
+      act = ACTS[n[1]]
+      ti, _ = _target(stack, act)
+      lines.append(ind + act.src.format(y=_yvar(stack[ti][1])))
     elif n[0] == 'C':
       lines.append(ind + f'w{cidx[path]}_ = pg.with_contextual_override(gx_)')
     elif n[0] == 'T':
       lines.append(ind + 'try:')
-      block(n[1], path, ind + ' ')
+      block(n[1], path, ind + ' ', stack)
       lines.append(ind + 'except (E_, BE_): pass')
     else:
       arg = MGRS[n[1]].args[n[2]]
@@ -1078,7 +1242,7 @@ def emit(prog, failure):
         return
       lines.append(ind2 + f'with {arg.src} as {_yvar(path)}:')
       slot(path, 'y', ind2 + ' ')
-      block(n[3], path, ind2 + ' ')
+      block(n[3], path, ind2 + ' ', stack + [(n[1], path)])
       if wrap:
         lines.append(ind + 'except (E_, BE_):')
         lines.append(ind + ' ' + failure.assert_src)
@@ -1088,7 +1252,7 @@ def emit(prog, failure):
 
   lines.append('e0_ = exn_()' if 'dyneval' in involved_keys(prog) else 'pass')
   lines.append('try:')
-  block(prog, (), ' ')
+  block(prog, (), ' ', [])
   lines.append('except (E_, BE_): pass')
   slot((), 'final', '')
   keys = set(involved_keys(prog)) | set(failure.keys)
@@ -1158,30 +1322,49 @@ def _chain_variants(seq):
 
 
 def valid_program(prog):
-  """Checks `allowed` predicates and manager conflicts against the model."""
-  def walk(children, model, open_mgrs):
+  """Checks `allowed` predicates, manager conflicts and action targets against the model."""
+  def walk(children, model, stack, direct):
+    # `direct`: the children are the statements of the block of stack[-1] (possibly via try blocks)
+    dirty = False
     for n in children:
+      if dirty and n[0] != 'R':
+        return False               # nothing is modelled after the yielded value was modified
       if n[0] == 'T':
-        if not walk(n[1], model, open_mgrs):
+        if not walk(n[1], model, stack, direct):
           return False
+        if any(c[0] == 'A' and ACTS[c[1]].dirty for c in n[1]):
+          dirty = True
+      elif n[0] == 'A':
+        act = ACTS[n[1]]
+        ti, _ = _target(stack, act)
+        if ti is None:
+          return False
+        if act.dirty:
+          if ti != len(stack) - 1 or not direct:
+            return False
+          dirty = True
+        elif act.effect is not None and act.effect is not _tended:
+          # state-setting actions: modelled on a copy (the effect mutates the model)
+          model = dict(model)
+          act.effect(model, 0)
       elif n[0] == 'W':
         mgr = MGRS[n[1]]
         arg = mgr.args[n[2]]
         if arg.allowed and not arg.allowed(model[mgr.key]):
           return False
-        if any(c in open_mgrs for c in mgr.conflicts):
+        if any(c in [e[0] for e in stack] for c in mgr.conflicts):
           return False
         if arg.enter_raises:
           continue
         inner = dict(model)
         inner[mgr.key] = mgr.enter(model[mgr.key], arg.marg)
-        if not walk(n[3], inner, open_mgrs | {mgr.name}):
+        if not walk(n[3], inner, stack + [(mgr.name, None)], True):
           return False
     return True
   names = _mgr_names(prog)
   if 'dynamic_evaluate' in names and 'dynamic_evaluate_global' in names:
     return False     # see drv_specials: dynamic_evaluate/process-wide-after-per-thread
-  return walk(prog, dict(INIT_MODEL), frozenset())
+  return walk(prog, dict(INIT_MODEL), [], False)
 
 
 def _mgr_names(prog):
@@ -1244,7 +1427,8 @@ def drv_nesting_same_key(tier, seed):
   full3 = tier != 'quick'
   rec = Recorder(
       'C17', 'same-state nesting of every scoped manager vs documented nesting rule',
-      scope=('per state key: all chains of its managers/args of depth 1..2 (and depth 3: '
+      scope=('per state key: all chains of its managers/args of depth 1..2 (quick: <=81 seeded '
+             'pairs per key) (and depth 3: '
              + ('all' if full3 else '40 seeded samples per key')
              + '), each with exit variants normal / Exception / BaseException / caught inside '
              'each level / raised after inner exit; all getters probed at every block slot and '
@@ -1255,7 +1439,10 @@ def drv_nesting_same_key(tier, seed):
     ch = _choices({k})
     if not ch:
       continue
-    seqs = [(a,) for a in ch] + list(itertools.product(ch, ch))
+    pairs = list(itertools.product(ch, ch))
+    if not full3 and len(pairs) > 81:
+      pairs = r.sample(pairs, 81)
+    seqs = [(a,) for a in ch] + pairs
     triples = list(itertools.product(ch, ch, ch))
     if not full3 and len(triples) > 40:
       triples = r.sample(triples, 40)
@@ -1265,6 +1452,61 @@ def drv_nesting_same_key(tier, seed):
       for vname, prog in _chain_variants(list(seq)):
         if valid_program(prog):
           progs.append((f'{k}/depth{len(seq)}/{vname}', prog))
+  _run_batch(rec, progs)
+  return _finish(rec)
+
+
+def drv_in_block_actions(tier, seed):
+  """What the block does with the scope object it was handed must not matter for the restore."""
+  quick = tier == 'quick'
+  rec = Recorder(
+      'C17', 'operations on the scope object / yielded value / scoped state inside the block',
+      scope=('every in-block action (TimeIt.end/end(error)/end twice/start on the current and the '
+             'enclosing timing scope; thread_local_set inside a value scope; adding an entry to / '
+             'clearing the dict yielded by str_format, repr_format, thread_local_arg_scope, '
+             'view_options, coding.context, contextual_override, contextual_scope, detour, '
+             'load_types_for_deserialization; appending to the list of track_scripts) x chains of '
+             'the manager\'s args of depth (1+up)..(2+up) (' + ('<=12 seeded chains per depth'
+                                                                if quick else 'all')
+             + ') x shapes: action last / action then raise E / BaseException / caught inside the '
+             'outer scope / sibling scope after the block / scope entered after the action / action '
+             'below a scope of a different manager / action repeated; getters probed at every slot'))
+  r = rng(seed, 'c17-actions')
+  allc = [c for c in _choices(set(KEY_ORDER)) if not MGRS[c[0]].args[c[1]].enter_raises]
+  progs = []
+  for act in ACTS.values():
+    ch = [(m, i) for m in act.mgrs for i, a in enumerate(MGRS[m].args)
+          if not a.enter_raises and a.src != "preset_('P')"]
+    for depth in (act.up + 1, act.up + 2):
+      seqs = list(itertools.product(ch, repeat=depth))
+      if quick and len(seqs) > 12:
+        seqs = r.sample(seqs, 12)
+      for seq in seqs:
+        seq = list(seq)
+        a = ('A', act.name)
+        last = ('W',) + tuple(seq[-1])
+        sib = ('W',) + tuple(r.choice(ch)) + ([],)
+        other = r.choice([c for c in allc if c[0] not in act.mgrs
+                          and MGRS[c[0]].key != MGRS[act.mgrs[0]].key])
+        shapes = [
+            ('last', _chain(seq, [a])),
+            ('then-raise', _chain(seq, [a, ('R', 'E')])),
+            ('then-raise-base', _chain(seq, [a, ('R', 'B')])),
+            ('sibling-after', _chain(seq[:-1], [last + ([a],), sib])),
+            ('caught-then-sibling',
+             _chain(seq[:-1], [('T', [last + ([a, ('R', 'E')],)]), sib])),
+        ]
+        if not act.dirty:
+          shapes += [
+              ('then-nested-scope', _chain(seq, [a, sib])),
+              ('repeated', _chain(seq, [a, a, sib, a])),
+              ('below-other-manager', _chain(seq + [other], [a])),
+              ('below-other-manager-raise', _chain(seq + [other], [a, ('R', 'E')])),
+              ('in-try', _chain(seq, [('T', [a, ('R', 'E')]), sib])),
+          ]
+        for sname, prog in shapes:
+          if valid_program(prog):
+            progs.append((f'{act.name}/depth{depth}/{sname}', prog))
   _run_batch(rec, progs)
   return _finish(rec)
 
@@ -1305,30 +1547,35 @@ def drv_nesting_cross_key(tier, seed):
 
 def random_tree(r, depth, keys=None, p_raise=0.25):
   allc = _choices(keys or set(KEY_ORDER))
+  plain = [a for a in ACTS.values() if not a.dirty]
 
-  def block(d):
+  def block(d, stack):
     out = []
     for _ in range(r.choice((0, 1, 1, 2, 2, 3)) if d else r.choice((1, 2, 3))):
       x = r.random()
+      acts = [a.name for a in plain if _target(stack, a)[0] is not None]
+      if acts and r.random() < 0.3:
+        out.append(('A', r.choice(acts)))
       if x < 0.62 and d < depth:
         name, ai = r.choice(allc)
-        out.append(('W', name, ai, block(d + 1)))
+        out.append(('W', name, ai, block(d + 1, stack + [(name, None)])))
       elif x < 0.74 and d < depth:
-        out.append(('T', block(d + 1)))
+        out.append(('T', block(d + 1, stack)))
       elif x < 0.74 + p_raise * 0.6:
         out.append(('R', r.choice('EEB')))
         break
       elif x < 0.95:
         out.append(('C',))
     return out
-  return block(0)
+  return block(0, [])
 
 
 def drv_random_trees(tier, seed):
   rec = Recorder(
       'C17', 'random well-nested programs with siblings, try blocks, raises and captured wrappers',
       scope=('seeded random trees, nesting depth<=3 (with/try), <=3 statements per block, '
-             'Exception/BaseException raised at arbitrary statements, '
+             'Exception/BaseException raised at arbitrary statements, in-block actions (TimeIt '
+             'end/start, thread_local_set, track_scripts append) before arbitrary statements, '
              'pg.with_contextual_override wrappers captured at arbitrary points and called '
              'later on the same and on a new thread; '
              + ('500' if tier == 'quick' else '6000') + ' programs over all managers, plus '
@@ -1395,6 +1642,12 @@ class _Worker:
           if cmd[1] == 'N':
             cm.__exit__(None, None, None)
             self.out.put(('ok', None))
+          elif cmd[1] == 'X':
+            try:
+              cm.__exit__(None, None, None)
+              self.out.put(('ok', 'exit_fn error did not propagate'))
+            except ns['E_']:
+              self.out.put(('ok', None))
           else:
             exc = ns['E_' if cmd[1] == 'E' else 'BE_']()
             swallowed = None
@@ -1404,7 +1657,7 @@ class _Worker:
               try:
                 swallowed = cm.__exit__(type(e), e, e.__traceback__)
               except BaseException as e2:  # pylint: disable=broad-except
-                if e2 is not e:
+                if e2 is not e and not isinstance(e2, ns['E_']):   # (a raising exit_fn may replace it)
                   raise
             self.out.put(('ok', bool(swallowed)))
         elif cmd[0] == 'probe':
@@ -1430,6 +1683,9 @@ def linearize(prog):
           continue
         ev.append(('enter', n[1], n[2]))
         r = walk(n[3], depth + 1)
+        if r is None and MGRS[n[1]].args[n[2]].exit_raises:
+          ev.append(('exit', 'X'))      # normal exit; the user's exit_fn raises E_
+          return 'E'
         ev.append(('exit', r or 'N'))
         if r:
           return r
@@ -1840,13 +2096,258 @@ assert not U.thread_local_has('k17s_')
 ]
 
 
+# --- errors raised while a scope is being left / by user callbacks run under a scope -------------
+
+_APPLY_EXIT_ERROR = """
+import pyglove as pg, threading
+out = []
+def plain(): return isinstance(pg.oneof([1, 2]), pg.hyper.OneOf)
+def other(): r = []; t = threading.Thread(target=lambda: r.append(plain())); t.start(); t.join(); return r[0]
+def body():
+  ctx = pg.hyper.DynamicEvaluationContext(per_thread=%(pt)s)
+  with ctx.collect(): pg.oneof([1, 2, 3])
+  assert plain()
+%(outer)s
+    try:
+      with ctx.apply([1, 0]):      # one decision too many: complained about when the block is left
+        assert pg.oneof([1, 2, 3]) == 2
+%(body)s
+    except (ValueError, KeyError): pass
+    out.append(%(inside)s)
+  out.append((plain(), other()))
+  with ctx.apply([2]): out.append(pg.oneof([1, 2, 3]))
+  out.append((plain(), other()))
+  # nothing of the left scopes lingers: fresh contexts of both kinds work on their own
+  for pt in (%(pt)s, not %(pt)s):
+    c2 = pg.hyper.DynamicEvaluationContext(per_thread=pt)
+    with c2.collect(): pg.oneof([4, 5])
+    out.append(len(c2.hyper_dict))
+  out.append((plain(), other()))
+def run():
+  try: body()
+  except Exception as e: out.append('%%s: %%s' %% (type(e).__name__, e))
+t = threading.Thread(target=run); t.start(); t.join()
+assert out == [%(want)s, (True, True), 3, (True, True), 1, 1, (True, True)], out
+"""
+for _pt in (True, False):
+  for _outer in (('top-level', '  if True:', 'plain()', 'True'),
+                 ('inside-dynamic_evaluate-scope',
+                  "  with pg.hyper.dynamic_evaluate(lambda hv: 'outer', per_thread=%s):" % _pt,
+                  'pg.oneof([1, 2])', "'outer'")):
+    for _body in (('unused-decision-error-at-exit', '        pass'),
+                  ('exception-in-block', '        raise KeyError()')):
+      SPECIALS.append((
+          f'dynamic_evaluation_context.apply/{_body[0]}/'
+          f'{"per-thread" if _pt else "process-wide"}/{_outer[0]}',
+          _APPLY_EXIT_ERROR % dict(pt=_pt, outer=_outer[1], inside=_outer[2], want=_outer[3],
+                                   body=_body[1])))
+
+SPECIALS += [
+    ('dynamic_evaluate/exit_fn-raises/process-wide-setting-cleared-for-other-threads', """
+import pyglove as pg, threading
+out = []
+def plain(): return isinstance(pg.oneof([1, 2]), pg.hyper.OneOf)
+def other(): r = []; t = threading.Thread(target=lambda: r.append(plain())); t.start(); t.join(); return r[0]
+def boom(): raise KeyError('unused decisions')
+def run():
+  try:
+    with pg.hyper.dynamic_evaluate(lambda hv: 'g', per_thread=False, exit_fn=boom):
+      out.append(other())
+  except KeyError: pass
+  out.append((plain(), other()))
+t = threading.Thread(target=run); t.start(); t.join()
+assert out == [False, (True, True)], out
+"""),
+    ('dynamic_evaluate/evaluate_fn-raises/scope-stays-and-is-restored', """
+import pyglove as pg
+def bad(hv): raise KeyError('no decision')
+with pg.hyper.dynamic_evaluate(lambda hv: 'outer'):
+  try:
+    with pg.hyper.dynamic_evaluate(bad):
+      try: pg.oneof([1, 2]); raise AssertionError('not evaluated')
+      except KeyError: pass
+      try: pg.oneof([1, 2]); raise AssertionError('scope lost after the error')
+      except KeyError: pass
+      pg.oneof([1, 2])
+  except KeyError: pass
+  assert pg.oneof([1, 2]) == 'outer'
+assert isinstance(pg.oneof([1, 2]), pg.hyper.OneOf)
+"""),
+    ('with_contextual_override/wrapped-function-raises/caller-state-restored', """
+import pyglove as pg, threading
+def boom(): raise KeyError(pg.contextual_value('x'))
+with pg.contextual_override(x=1, y=pg.utils.contextual.ContextualOverride(5, cascade=True)):
+  w = pg.with_contextual_override(boom)
+def call():
+  try: w(); return 'no error'
+  except KeyError as e: return e.args[0]
+out = []
+def thread():
+  out.append(call()); out.append(pg.utils.all_contextual_values())
+  with pg.contextual_override(x=3):
+    out.append(call()); out.append(pg.utils.all_contextual_values())
+with pg.contextual_override(x=7, y=8):
+  assert call() == 1
+  assert pg.utils.all_contextual_values() == {'x': 7, 'y': 8}
+  t = threading.Thread(target=thread); t.start(); t.join()
+  assert pg.utils.all_contextual_values() == {'x': 7, 'y': 8}
+assert call() == 1 and pg.utils.all_contextual_values() == {}
+assert out == [1, {}, 1, {'x': 3}], out
+"""),
+    ('view/render-raises/view-options-restored', """
+import pyglove as pg
+class V17x_(pg.views.View):
+  VIEW_ID = 'c17boom_'
+  def render(self, value, *, name=None, root_path=None, **kwargs):
+    V17x_.seen = kwargs
+    if value == 'boom': raise KeyError('render failed')
+    return pg.Html('x')
+def opts(): pg.view(1, view_id='c17boom_'); return V17x_.seen
+with pg.view_options(a=1):
+  try: pg.view('boom', view_id='c17boom_', a=2, b=3); raise AssertionError('no error')
+  except KeyError: pass
+  assert V17x_.seen == {'a': 2, 'b': 3} and opts() == {'a': 1}, (V17x_.seen, opts())
+  try:
+    with pg.view_options(c=4):
+      pg.view('boom', view_id='c17boom_')
+  except KeyError: pass
+  assert opts() == {'a': 1}, opts()
+assert opts() == {} and not pg.utils.thread_local_has('__view_options__') or pg.utils.thread_local_get('__view_options__') == []
+"""),
+    ('view/extension-method-raises/operand-tracking-restored', """
+import pyglove as pg
+class V17e_(pg.views.View):
+  VIEW_ID = 'c17ext_'
+  class Extension(pg.views.View.Extension):
+    def _c17_render(self, *, view, **kwargs):
+      if self.boom: raise KeyError('extension failed')
+      return pg.Html('ext')
+  @pg.views.View.extension_method('_c17_render')
+  def render(self, value, *, name=None, root_path=None, **kwargs):
+    return pg.Html('default')
+class X17e_(V17e_.Extension):
+  def __init__(self, boom): self.boom = boom
+def tracked(): return pg.utils.thread_local_get('__view_operand_stack__', None)
+assert tracked() is None
+assert pg.view(X17e_(False), view_id='c17ext_').content == 'ext'
+assert tracked() is None
+try: pg.view(X17e_(True), view_id='c17ext_'); raise AssertionError('no error')
+except KeyError: pass
+assert tracked() is None, tracked()
+assert pg.view(X17e_(False), view_id='c17ext_').content == 'ext'
+"""),
+    ('coding.evaluate/code-raises/permission-and-context-restored', """
+import pyglove as pg
+P = pg.coding.CodePermission
+def state(): return (pg.coding.get_permission(), pg.coding.get_context())
+assert state() == (None, {})
+for code, perm in [('1/0', P.ALL), ('x = 1', P.BASIC), ('len([])', P.ASSIGN), ('1/0', None)]:
+  try: pg.coding.evaluate(code, permission=perm)
+  except (pg.coding.CodeError, SyntaxError): pass
+  assert state() == (None, {}), state()
+  with pg.coding.permission(P.ALL):
+    with pg.coding.context(z=0):
+      try: pg.coding.evaluate(code, permission=perm)
+      except (pg.coding.CodeError, SyntaxError): pass
+      assert state() == (P.ALL, {'z': 0}), state()
+      try: pg.coding.run(code, permission=perm, sandbox=False)
+      except (pg.coding.CodeError, SyntaxError): pass
+      assert state() == (P.ALL, {'z': 0}), state()
+assert state() == (None, {})
+"""),
+    ('detour/destination-function-raises/mappings-kept-and-restored', """
+import pyglove as pg
+class A:
+  def __init__(self, v=0): self.v = v
+class B:
+  def __init__(self, v=0): self.v = v
+def boom(cls, v=0):
+  if v < 0: raise KeyError('refused')
+  return B(v)
+with pg.detour([(A, boom)]):
+  try: A(-1); raise AssertionError('no error')
+  except KeyError: pass
+  assert type(A(1)) is B and pg.detouring.current_mappings() == {A: boom}
+  try:
+    with pg.detour([(B, boom)]):
+      B(-1)
+  except KeyError: pass
+  assert type(A(1)) is B and type(B(1)) is B and pg.detouring.current_mappings() == {A: boom}
+assert type(A(-1)) is A and pg.detouring.current_mappings() == {}
+"""),
+    ('apply_wrappers/where-raises/nothing-applied', """
+import pyglove as pg
+class A:
+  def __init__(self, v=0): self.v = v
+AW = pg.wrap(A)
+def where(c): raise KeyError('bad filter')
+try:
+  with pg.apply_wrappers(where=where): raise AssertionError('entered')
+except KeyError: pass
+assert type(A(1)) is A and pg.detouring.current_mappings() == {}
+with pg.apply_wrappers([AW]):
+  assert isinstance(A(1), AW)
+assert type(A(1)) is A
+"""),
+    # A TimeIt is a reusable (class based) context manager object.
+    ('timeit/scope-object-entered-again/at-the-same-position', """
+import pyglove as pg
+cur = lambda: pg.utils.thread_local_get('__timing_context__', None)
+t = pg.utils.TimeIt('r')
+with t: assert cur() is t
+assert cur() is None
+with t: assert cur() is t
+assert cur() is None
+with pg.timeit('p') as p:
+  with t: assert cur() is t
+  assert cur() is p
+  try:
+    with t: raise KeyError()
+  except KeyError: pass
+  assert cur() is p
+assert cur() is None
+"""),
+    ('timeit/scope-object-entered-again/nested-after-top-level', """
+import pyglove as pg
+cur = lambda: pg.utils.thread_local_get('__timing_context__', None)
+t = pg.utils.TimeIt('r')
+with t: pass
+with pg.timeit('p') as p:
+  with t: assert cur() is t
+  assert cur() is p
+assert cur() is None
+"""),
+    ('timeit/scope-object-entered-again/top-level-after-nested', """
+import pyglove as pg
+cur = lambda: pg.utils.thread_local_get('__timing_context__', None)
+t = pg.utils.TimeIt('r')
+with pg.timeit('p') as p:
+  with t: pass
+assert cur() is None
+try:
+  with t: assert cur() is t
+  assert cur() is None, 'left top-level scope r, yet the current timing scope is %r' % cur().name
+finally:
+  if cur() is not None: pg.utils.thread_local_del('__timing_context__')
+"""),
+]
+
+
 def drv_specials(tier, seed):
   del tier, seed
   rec = Recorder('C17', 'hand-written special situations',
                  scope=f'{len(SPECIALS)} fixed scenarios (class inheritance under detour, custom '
                        '__new__, per-thread vs process-wide dynamic evaluation in sequence, '
                        'DynamicEvaluationContext collect/apply, wrapper argument forwarding, '
-                       'lazy scope objects, TimeIt status tree, falsy values in value scopes)')
+                       'lazy scope objects, TimeIt status tree, falsy values in value scopes; '
+                       'errors while leaving / under a scope: DynamicEvaluationContext.apply with an '
+                       'unused decision or a failing block x per-thread/process-wide x top-level/'
+                       'nested, raising exit_fn of a process-wide dynamic_evaluate seen from another '
+                       'thread, raising evaluate_fn, raising function behind with_contextual_override, '
+                       'raising View.render / extension method under pg.view, failing code under '
+                       'coding.evaluate/run with permission=, raising detour destination, raising '
+                       'apply_wrappers filter; a TimeIt object entered again at the same / a deeper / '
+                       'a shallower position)')
   for cid, src in SPECIALS:
     def run(src=src):
       try:
@@ -1860,5 +2361,5 @@ def drv_specials(tier, seed):
   return rec.result()
 
 
-DRIVERS = [drv_nesting_same_key, drv_nesting_cross_key, drv_random_trees, drv_threads,
-           drv_specials]
+DRIVERS = [drv_nesting_same_key, drv_in_block_actions, drv_nesting_cross_key, drv_random_trees,
+           drv_threads, drv_specials]
